@@ -600,8 +600,11 @@ func buildSpliceAPIAlloc(m *ref.Splice, noise uint32, alloc func([]byte) []byte)
 		d.SetSegmentsExpected(w.Expected)
 		// documented interaction: SetTypeID clears the sub-segment flag for other types; set it explicitly afterwards
 		d.SetHasSubSegments(w.HasSub)
-		d.SetSubSegmentNumber(w.SubNum)
-		d.SetSubSegmentsExpected(w.SubExpected)
+		if w.HasSub {
+			// value setters only for fields the caller wants present (whether they imply the flag is not stated)
+			d.SetSubSegmentNumber(w.SubNum)
+			d.SetSubSegmentsExpected(w.SubExpected)
+		}
 		ds = append(ds, d)
 	}
 	s.SetDescriptors(ds)
